@@ -72,12 +72,12 @@ CHECKS = {
              note='values without a registered query are not judged (counted); small-scope bound', ref='§6 C11'),
 
  'C04': dict(engine='P', technique='exhaustive product role x call form x specification pattern vector with decoy sites; independent reference matcher (plain regexp on generator facts) vs the roles the real analysis assigns',
-             text='5625 cells (4 roles x up to 9 call forms x 225 pattern vectors), three call sites each (target, similarly named function, same method on another receiver): the reference says matched/unmatched per site and the reported flows of a skeleton program reveal whether the tool treated the site in the role; both missed and spurious matches are violations.',
-             note='receiver patterns on interface calls unjudged; identifier kinds type/field/store/channel and value-match not covered; backtrace-point role not covered', ref='§6 C04'),
+             text='7875 call cells (4 roles x up to 14 call forms, incl. function values with several possible callees, x 225 pattern vectors), three call sites each (target, similarly named function, same method on another receiver), plus 2644 identifier-kind cells (allocation / field read / field store / channel receive / value-match x forms x package-type-field pattern vectors, with decoy fields and types): the reference says matched/unmatched per site and the reported flows of a skeleton program reveal whether the tool treated the site in the role; both missed and spurious matches are violations.',
+             note='receiver patterns on interface calls and type patterns whose verdict depends on the pointer prefix are unjudged; interface identifiers and the backtrace-point role not covered', ref='§6 C04'),
 
  'C06': dict(engine='S', technique='stateless DFS over worker schedules (preemption-bounded, per NumCPU answer) and enumeration of map-iteration-order assignments on the real analyzer, rewritten with types onto a controlled scheduler and a map-order seam',
-             text='The whole taint analysis (real code; 275 map ranges and all concurrency constructs mechanically rewritten) runs under the controlled scheduler: the baseline is replayed twice, then every schedule within the preemption bound for 2, 3 and 4 workers and every single relevant map site flipped to descending / rotated (plus all sites) must give the same canonical flows/escapes/error as the baseline.',
-             note='map orders limited to three policies per site; schedule exploration capped per worker count in quick; internal/pointer not rewritten; backtrace not yet included', ref='§6 C06'),
+             text='The whole taint and backtrace analyses (real code; 275 map ranges and all concurrency constructs mechanically rewritten) run under the controlled scheduler: the baseline is replayed twice, then every schedule within the preemption bound for 2, 3 and 4 workers and every single relevant map site flipped to descending / rotated (plus all sites) must give the same canonical flows/escapes/trace endpoints as the baseline; under max-alarms=k the kept flows must number min(k, |untruncated|) and lie inside the untruncated set.',
+             note='map orders limited to three policies per site; schedule exploration capped per worker count in quick; internal/pointer not rewritten; error message texts not compared', ref='§6 C06'),
 }
 NA = []
 def main():
